@@ -35,6 +35,25 @@ func (acme *AcmeData) Storages() *AcmeStorages {
 	return acme.storages
 }
 
+// CarryStorages moves the storages of old to acme and clears them.
+func (acme *AcmeData) CarryStorages(old *AcmeData) {
+	acme.storages = old.Storages()
+	acme.storages.Clear()
+}
+
+// Clear drops all the storages, as a full sync does, remembering them as
+// removed, so the ones a full sync does not declare again can leave the work
+// queue. Distinct from a partial sync, the ones declared again are still
+// reported as added: this is how a new leader schedules all the certificates.
+func (c *AcmeStorages) Clear() {
+	for name, item := range c.items {
+		c.itemsDel[name] = item
+	}
+	c.items = map[string]*AcmeCerts{}
+	c.itemsAdd = map[string]*AcmeCerts{}
+	c.cleared = true
+}
+
 // Acquire ...
 func (c *AcmeStorages) Acquire(name string) *AcmeCerts {
 	storage, found := c.items[name]
@@ -92,7 +111,9 @@ func buildAcmeStorages(items map[string]*AcmeCerts) []string {
 func (c *AcmeStorages) shrink() {
 	for item, del := range c.itemsDel {
 		if add, found := c.itemsAdd[item]; found && reflect.DeepEqual(add, del) {
-			delete(c.itemsAdd, item)
+			if !c.cleared {
+				delete(c.itemsAdd, item)
+			}
 			delete(c.itemsDel, item)
 		}
 	}
@@ -112,6 +133,7 @@ func (c *AcmeStorages) RemoveAll(names []string) {
 func (c *AcmeStorages) Commit() {
 	c.itemsAdd = map[string]*AcmeCerts{}
 	c.itemsDel = map[string]*AcmeCerts{}
+	c.cleared = false
 }
 
 // AddDomains ...
